@@ -38,7 +38,8 @@ import (
 )
 
 var (
-	noCacheReg = regexp.MustCompile(`no-cache|no-store|private`)
+	// directive names are case-insensitive (RFC 7234 5.2)
+	noCacheReg = regexp.MustCompile(`(?i)no-cache|no-store|private`)
 	sMaxAgeReg = regexp.MustCompile(`s-maxage=(\d+)`)
 	maxAgeReg  = regexp.MustCompile(`max-age=(\d+)`)
 )
